@@ -5,6 +5,7 @@ import (
 	"go/ast"
 	"go/token"
 	"go/types"
+	"golang.org/x/tools/go/ssa"
 	"strings"
 
 	"golang.org/x/tools/go/cfg"
@@ -21,11 +22,12 @@ func init() {
 	})
 	ruleText["R16.1"] = "in importSrc: (a) the srcPkg early return dominates every file access and run; (b) the test of Interpreter.rdir[importPath] (returning an import-cycle error) dominates the store rdir[importPath] = true, which dominates fs.ReadDir and every call that can recurse (parse/gta/gtaRetry/cfg); (c) on the relative-import branch the directory derives from filepath.Dir(interp.name)"
 	ruleText["R16.2"] = "in pkgDir the fs.Stat of the candidate containing the vendor directory precedes (dominates) the fs.Stat of the plain candidate, each successful Stat returns its own candidate, and the recursive call takes the root computed by previousRoot; in previousRoot, under root != mainID && final != vendor, no return with a nil error is reachable from the entry without passing a block that calls fs.Stat"
+	ruleText["R16.4"] = "in importSrc the first argument of effectivePkg originates (SSA) only in the second result of a pkgDir call (possibly through an in-package helper), the root parameter or a constant"
 	ruleText["R16.3"] = "every file-system access in the functions reachable from importSrc within package interp is an io/fs function whose first argument is loaded from Interpreter.opt.filesystem; no os.Open/ReadFile/Stat/ReadDir or io/ioutil access"
 }
 
 func runC16(c *Config, r *Report) {
-	ic, err := loadInterp(c, false)
+	ic, err := loadInterp(c, true)
 	if err != nil {
 		r.Errorf("%v", err)
 		return
@@ -35,6 +37,7 @@ func runC16(c *Config, r *Report) {
 	c16R2(ic, r)
 	c16R2b(ic, r)
 	c16R3(ic, r)
+	c16R4(ic, r)
 }
 
 func c16R1(ic *IC, r *Report) {
@@ -508,4 +511,96 @@ func c16R2b(ic *IC, r *Report) {
 	}
 	r.Check(len(early) == 0, "R16.2", "previousRoot/closest-vendor-first", ic.pos(fi.Decl.Pos()), "for an ordinary root every result is computed after the upward search for a vendor directory",
 		"for a root that is neither main nor a vendor directory, previousRoot can answer ("+strings.Join(early, "; ")+") before it has looked for a vendor directory among the root's ancestors: the nearest enclosing vendor directory is skipped and the import resolves to an outer vendor directory or to GOPATH")
+}
+
+// c16R4: the root handed on to the imports of a package found by the GOPATH/vendor search is
+// the root returned by the very search that found it (pkgDir returns the directory together
+// with the root it was found under, e.g. foo/vendor): nested imports then start from the
+// package's own vendor directory. In importSrc, the first argument of effectivePkg originates
+// (SSA) only in: the second result of a pkgDir call (directly or through an in-package helper
+// whose second result has that origin on every successful return), the root parameter itself,
+// or a constant (the normalisation of the relative branch).
+func c16R4(ic *IC, r *Report) {
+	fn := ic.ssaMeth("Interpreter", "importSrc")
+	pkgDir := ic.ssaMeth("Interpreter", "pkgDir")
+	if fn == nil || pkgDir == nil {
+		r.Errorf("anchor not resolved: (*Interpreter).importSrc / pkgDir (SSA)")
+		return
+	}
+	var classify func(v ssa.Value, depth int) (ok bool, why string)
+	classify = func(v ssa.Value, depth int) (bool, string) {
+		for _, o := range origins(v, map[ssa.Value]bool{}) {
+			switch x := o.(type) {
+			case *ssa.Const:
+				continue
+			case *ssa.Parameter:
+				if types.Identical(x.Type(), types.Typ[types.String]) {
+					continue
+				}
+				return false, "parameter " + x.Name()
+			case *ssa.Extract:
+				call, isCall := x.Tuple.(*ssa.Call)
+				if !isCall {
+					return false, describeValue(o)
+				}
+				callee := call.Call.StaticCallee()
+				if callee == pkgDir {
+					if x.Index == 1 {
+						continue
+					}
+					return false, fmt.Sprintf("result #%d of pkgDir", x.Index)
+				}
+				if callee != nil && callee.Pkg == fn.Pkg && depth < 3 && len(callee.Blocks) > 0 {
+					// helper: the same result index of every return
+					allOK, firstWhy := true, ""
+					nret := 0
+					for _, b := range callee.Blocks {
+						for _, ins := range b.Instrs {
+							ret, isRet := ins.(*ssa.Return)
+							if !isRet || x.Index >= len(ret.Results) {
+								continue
+							}
+							nret++
+							// an error return (last result a non-nil error constant is not decidable here): classify anyway
+							if ok, why := classify(ret.Results[x.Index], depth+1); !ok {
+								allOK, firstWhy = false, why
+							}
+						}
+					}
+					if nret > 0 && allOK {
+						continue
+					}
+					return false, "result #" + fmt.Sprint(x.Index) + " of " + ssaFuncName(callee) + " (" + firstWhy + ")"
+				}
+				name := "a dynamic call"
+				if callee != nil {
+					name = ssaFuncName(callee)
+				}
+				return false, fmt.Sprintf("result #%d of %s", x.Index, name)
+			default:
+				return false, describeValue(o)
+			}
+		}
+		return true, ""
+	}
+	n := 0
+	for _, b := range fn.Blocks {
+		for _, ins := range b.Instrs {
+			call, ok := ins.(*ssa.Call)
+			if !ok {
+				continue
+			}
+			callee := call.Call.StaticCallee()
+			if callee == nil || ssaFuncName(callee) != "effectivePkg" || len(call.Call.Args) < 1 {
+				continue
+			}
+			n++
+			ok2, why := classify(call.Call.Args[0], 0)
+			r.Check(ok2, "R16.4", fmt.Sprintf("importSrc/root-of-the-found-package#%d", n), ic.pos(call.Pos()), "the root handed on is the one returned by the search that found the directory",
+				"the root importSrc hands on to the imports of the package (first argument of effectivePkg) can come from "+why+" instead of the root returned by pkgDir with the directory: the imports of a package found under foo/vendor are then searched from foo, so the vendor directory nested in that dependency is never looked at")
+		}
+	}
+	if n == 0 {
+		r.Errorf("R16.4: no call of effectivePkg found in importSrc")
+	}
 }
